@@ -73,6 +73,98 @@ def gen_case(rng):
     return {"W": W, "spl": spl, "spr": spr, "cols": cols, "src": src, "via": via}
 
 
+def gen_group_case(rng):
+    """a section holding one mj-group (default / percentage / pixel width) of 1-4 automatic columns, each with an image and a divider,
+    beside an optional sibling column"""
+    W = rng.choice([300, 320, 480, 500, 550, 600, 640, 700, 800, 901])
+    spl = rng.choice([0, 0, 10, 20, 25])
+    sattr = ' padding="0px %dpx"' % spl if spl else rng.choice(['', ' padding="0"'])
+    if not spl and sattr == "":
+        spl_eff = 0
+    k = rng.random()
+    sib = ""
+    if k < 0.25:
+        gw, gattr = None, ""
+    elif k < 0.8:
+        p = rng.choice([x for x in PCTS if 20 <= float(x[0])])
+        gw, gattr = ("pct", p[1], p[2]), ' width="%s%%"' % p[0]
+        rest = 100 - float(p[0])
+        if rest >= 10 and rng.random() < 0.8:
+            sib = '<mj-column width="%g%%"><mj-text>rest</mj-text></mj-column>' % rest
+    else:
+        px = rng.choice([150, 200, 280, 301])
+        gw, gattr = ("px", px), ' width="%dpx"' % px
+        if rng.random() < 0.5:
+            sib = '<mj-column width="100px"><mj-text>rest</mj-text></mj-column>'
+    n = rng.choice([1, 2, 2, 3, 4])
+    cols, xml = [], []
+    for i in range(n):
+        cp = rng.choice([None, None, 0, 5, (0, 10)])
+        cattr = ""
+        if cp is None:
+            cpl = 0
+        elif isinstance(cp, tuple):
+            cpl = cp[1]
+            cattr = ' padding="%dpx %dpx"' % cp
+        else:
+            cpl = cp
+            cattr = ' padding="%dpx"' % cp
+        ip = rng.choice([None, 0, 10, (5, 15)])
+        if ip is None:
+            ipl, iattr = 25, ""
+        elif isinstance(ip, tuple):
+            ipl, iattr = ip[1], ' padding="%dpx %dpx"' % ip
+        else:
+            ipl, iattr = ip, ' padding="%dpx"' % ip
+        cols.append((None, cpl, cpl, ipl, ipl))
+        xml.append('<mj-column%s><mj-image src="https://x/a.png"%s/><mj-divider%s/></mj-column>' % (cattr, iattr, iattr))
+    order = rng.random() < 0.5
+    grp = '<mj-group%s>%s</mj-group>' % (gattr, "".join(xml))
+    src = '<mjml><mj-body width="%dpx"><mj-section%s>%s</mj-section></mj-body></mjml>' % (W, sattr, (sib + grp) if (sib and order) else (grp + sib))
+    return {"W": W, "spl": spl, "spr": spl, "gw": gw, "cols": cols, "src": src, "sib_first": bool(sib and order), "sib": bool(sib)}
+
+
+def observe_group(toks, html):
+    """(group cell width, [(Outlook cell, image width, Outlook divider width)] of the group's columns)"""
+    tds, imgs = observe(toks)
+    m = re.search(r'<td class="" style="width:(-?\d+)px;"', html)
+    divs = [int(x) for x in re.findall(r'margin:0px auto;width:(-?\d+)px;" role="presentation" width="-?\d+px"', html)]
+    return (int(m.group(1)) if m else None), tds, imgs, divs
+
+
+def coq_group_case(i, c, g, cells):
+    def w(cw):
+        if cw is None:
+            return "None"
+        if cw[0] == "pct":
+            return "(Some (Pct {| num := %d ; den := %d |}))" % (cw[1], cw[2])
+        return "(Some (Px %d))" % cw[1]
+    cols = "; ".join("{| cw := None ; cpl := %d ; cpr := %d ; ipl := %d ; ipr := %d ; ibw := 0 |}" % (cpl, cpr, ipl, ipr) for _, cpl, cpr, ipl, ipr in c["cols"])
+    obs = "; ".join("(%d, %d)" % (a, b) for a, b in cells)
+    return "(%d, %d, %d, %d, %s, [%s], %d, [%s])" % (i, c["W"], c["spl"], c["spr"], w(c["gw"]), cols, g, obs)
+
+
+def group_tie_skip(c):
+    """exact half-pixel ties of a non-dyadic percentage (float64 vs exact arithmetic), at the group or at one of its columns"""
+    inner = c["W"] - c["spl"] - c["spr"]
+    n = len(c["cols"])
+    if c["gw"] is None:
+        g = inner
+    elif c["gw"][0] == "px":
+        return False
+    else:
+        num, den = c["gw"][1], c["gw"][2]
+        if (inner * num) % (den * 100) == 0:
+            g = inner * num // (den * 100)
+        else:
+            g = inner * num // (den * 100)
+            # int(float): a product within 1e-9 of an integer may land on either side
+            frac = (inner * num) % (den * 100) / (den * 100.0)
+            if frac < 1e-6 or frac > 1 - 1e-6:
+                return True
+    return n not in (1, 2, 4) and (2 * g) % n == 0 and g % n != 0
+
+
 def observe(toks):
     """(Outlook cell widths of the section's columns, image width attributes), in order"""
     tds, imgs = [], []
@@ -293,6 +385,56 @@ def run(ck):
                                 "an Outlook table is %spx wide while the div it wraps is limited to %spx" % (w, mw)))
                 break
     ck.cov["outlook_table_div_pairs"] = npairs
+    # (3b) groups: group box, Outlook cells of its columns, and what its images and dividers get, vs predict_group
+    gcases = [gen_group_case(rng) for _ in range(300 if ck.quick else 10000)]
+    gres, _ = common.run_jobs(hb, "render", [{"id": i, "src": c["src"]} for i, c in enumerate(gcases)])
+    gt = vlib.model_run(mr, [("lex", (vl.body_inner((gres.get(i) or {}).get("html") or "") or "").encode()) for i in range(len(gcases))])
+    gterms, gsk = [], 0
+    for i, c in enumerate(gcases):
+        r = gres.get(i)
+        if not r or not r.get("html") or not gt[i]:
+            continue
+        n = len(c["cols"])
+        g, tds, imgs, divs = observe_group(vlib.parse_toks(gt[i]), r["html"])
+        if c["sib"]:
+            tds = tds[1:] if c["sib_first"] else tds[:-1]
+        ck.count("group:" + c["src"], c["gw"] is not None and c["gw"][0] == "pct" and n >= 2, tags=["group", "group-width:" + ("default" if c["gw"] is None else c["gw"][0]), "group-cols:%d" % n])
+        if g is None or len(tds) != n or len(imgs) != n or len(divs) != n:
+            failing.append(({"src": c["src"], "group_cell": g, "cells": tds, "images": imgs, "dividers": divs}, "cannot locate the group's cell and one Outlook cell, image and divider per group column"))
+            continue
+        inner = c["W"] - c["spl"] - c["spr"]
+        if group_tie_skip(c) or any(td - cpl - cpr - ipl - ipr <= 1 for td, (_, cpl, cpr, ipl, ipr) in zip(tds, c["cols"])):
+            gsk += 1        # paddings consume the column (listed known finding zero-content-width) or a float64 rounding tie
+            continue
+        if imgs != divs:
+            failing.append(({"src": c["src"], "images": imgs, "dividers": divs}, "an image and a divider with the same padding in the same group column get different widths"))
+            continue
+        bad = [k for k in range(n) if imgs[k] > tds[k] + 1]
+        if bad or g > inner and c["gw"] and c["gw"][0] == "pct":
+            failing.append(({"src": c["src"], "group_cell_px": g, "section_content_px": inner, "outlook_cells": tds, "images": imgs},
+                            "inside a group an image is wider than the Outlook cell of its column" if bad else "a group is wider than the section's content box"))
+            continue
+        gterms.append(coq_group_case(i, c, g, list(zip(tds, imgs))))
+    ck.cov["group_cases_skipped_tie_or_degenerate"] = gsk
+    gm, gerrs = [], []
+    if ok and gterms:
+        body = ("From Coq Require Import ZArith List Bool.\nFrom GV Require Import Width.Model.\nImport ListNotations.\nOpen Scope Z_scope.\n"
+                "Definition pair_eqb (a b : Z * Z) := (fst a =? fst b) && (snd a =? snd b).\n"
+                "Fixpoint list_eqb (a b : list (Z * Z)) := match a, b with [], [] => true | x :: a', y :: b' => pair_eqb x y && list_eqb a' b' | _, _ => false end.\n"
+                "Definition cases : list (Z * Z * Z * Z * option width * list colspec * Z * list (Z * Z)) := [\n" + ";\n".join(gterms) + "].\n"
+                "Definition M := Eval vm_compute in flat_map (fun c => match c with (i, w, l, r, gw, cols, g, obs) => "
+                "let p := predict_group (section_inner w l r) gw cols in if (fst p =? g) && list_eqb (snd p) obs then [] else [i] end) cases.\nPrint M.\n")
+        shards = [gterms[k:k + 400] for k in range(0, len(gterms), 400)]
+        for k, sh in enumerate(shards):
+            b2 = body.replace(";\n".join(gterms), ";\n".join(sh))
+            eok, so, se, dt = vlib.coq_eval("c10g_%d" % k, b2)
+            m = re.search(r"M\s*=\s*(\[.*?\])\s*:\s*list", so.replace("\n", " "))
+            if not eok or not m:
+                gerrs.append((se or so)[-400:])
+            else:
+                gm += [int(x) for x in re.findall(r"-?\d+", m.group(1))]
+    ck.cov["group_cases_evaluated_in_coq"] = len(gterms) if not gerrs else 0
+    ck.cov["group_model_mismatches"] = len(gm)
     # (4) divider: Outlook width = container - left - right padding, shorthand (1, 2, 4 values) overridden by padding-left / padding-right
     dres = []
     for sh, (l0, r0) in (("10px", (10, 10)), ("0 25px", (25, 25)), ("0 10px 0 40px", (40, 10)), ("10px 20px 10px 60px", (60, 20)), (None, (25, 25))):
@@ -317,6 +459,10 @@ def run(ck):
     if mism or errs:
         ck.violation({"kind": "correspondence-broken", "what": "Width.Model.predict_section and the implementation disagree on Outlook cell widths / image widths "
                       "although the box relations hold in every output", "examples": [{"src": cases[i]["src"]} for i in mism[:3]], "evaluation_errors": errs[:2]}, no_input=True)
+    if gm or gerrs:
+        ck.violation({"kind": "correspondence-broken", "what": "Width.Model.predict_group and the implementation disagree on the group's box, the Outlook cells of its "
+                      "columns or the widths of their images although the box relations hold in every output",
+                      "examples": [{"src": gcases[i]["src"]} for i in gm[:3]], "evaluation_errors": gerrs[:2]}, no_input=True)
 
 
 def replay(ck, path):
